@@ -25,6 +25,7 @@
 #include "config/configcompiler.hpp"
 #include "config/expression.hpp"
 #include <cmath>
+#include <fcntl.h>
 #include <fstream>
 #include <map>
 #include <memory>
@@ -80,13 +81,28 @@ static Node Num(const std::string& text)
 	return n;
 }
 
+static const std::vector<std::pair<std::string, std::string>> g_OpNames = {
+	{ "+", "add" }, { "-", "sub" }, { "*", "mul" }, { "/", "div" }, { "%", "mod" }, { "^", "xor" }, { "&", "band" }, { "|", "bor" },
+	{ "<<", "shl" }, { ">>", "shr" }, { "==", "eq" }, { "!=", "ne" }, { "<", "lt" }, { ">", "gt" }, { "<=", "le" }, { ">=", "ge" },
+	{ "=", "lit" }, { "+=", "add" }, { "-=", "sub" }, { "*=", "mul" }, { "/=", "div" }, { "%=", "mod" }, { "^=", "xor" }, { "&=", "band" }, { "|=", "bor" } };
+
+static std::string OpName(const std::string& sym) { for (auto& p : g_OpNames) if (p.first == sym) return p.second; return "?"; }
+static std::string OpSym(const std::string& name, bool set)
+{
+	for (auto& p : g_OpNames) if (p.second == name && ((p.first.back() == '=' && p.first != "==" && p.first != "!=" && p.first != "<=" && p.first != ">=") == set)) return p.first;
+	return "?";
+}
+
 static void Emit(const Node& n, std::string& o)
 {
 	auto kids = [&]() { for (auto& c : n.k) Emit(c, o); };
 	const std::string& t = n.tag;
 	if (t == "n") { char b[40]; snprintf(b, sizeof b, "n %016llx %s ", (unsigned long long)n.bits, n.s.c_str()); o += b; }
 	else if (t == "s") { o += "s " + Hex(n.s) + " "; }
-	else if (t == "v" || t == "op" || t == "dot" || t == "set" || t == "var") { o += t + " " + n.s + " "; kids(); }
+	else if (t == "op" || t == "set") { o += t + " " + OpName(n.s) + " "; kids(); }
+	else if (t == "||") { o += "lor "; kids(); }
+	else if (t == "&&") { o += "land "; kids(); }
+	else if (t == "v" || t == "dot" || t == "var") { o += t + " " + n.s + " "; kids(); }
 	else if (t == "call" || t == "arr" || t == "dict" || t == "blk") {
 		/* call: k[0] = callee, rest = args */
 		o += t + " " + std::to_string(t == "call" ? n.k.size() - 1 : n.k.size()) + " "; kids();
@@ -114,7 +130,8 @@ static Node Parse(Tok& tk, int depth = 0)
 	if (t == "n") { Node n = N0("n"); n.bits = strtoull(tk.next().c_str(), nullptr, 16); n.s = tk.next(); return n; }
 	if (t == "s") return N0("s", UnHex(tk.next()));
 	if (t == "v") return N0("v", tk.next());
-	if (t == "op" || t == "set") { std::string s = tk.next(); Node a = P(); Node b = P(); return N2(t, a, b, s); }
+	if (t == "op" || t == "set") { std::string s = OpSym(tk.next(), t == "set"); if (s == "?") tk.bad = true; Node a = P(); Node b = P(); return N2(t, a, b, s); }
+	if (t == "lor" || t == "land") { Node a = P(); Node b = P(); return N2(t == "lor" ? "||" : "&&", a, b); }
 	if (t == "dot" || t == "var") { std::string s = tk.next(); return N1(t, P(), s); }
 	if (t == "call" || t == "arr" || t == "dict" || t == "blk") {
 		size_t n = strtoul(tk.next().c_str(), nullptr, 10);
@@ -151,6 +168,7 @@ struct Prec {
 	int Level(const std::string& t) const { auto it = tok.find(t); return it == tok.end() ? -1 : it->second.first; }
 };
 static Prec g_Prec;
+static FILE *g_Out = nullptr;   /* the protocol stream: flex's default rule ECHOes unmatched input to stdout */
 
 static bool LoadPrec(const char *path)
 {
@@ -273,7 +291,11 @@ struct Printer {
 			if (it != g_Prec.lexToTok.end()) assoc = g_Prec.tok[it->second].second;
 			return Operand(n.k[0], l, assoc != 'l') + " " + sym + " " + Operand(n.k[1], l, assoc != 'r');
 		}
-		if (t == "!" || t == "~") return t + Operand(n.k[0], NodeLevel(n), false);
+		if (t == "!" || t == "~") {
+			/* `!in…` would lex as the T_NOT_IN token (config_lexer.ll: `!in` wins by longest match, even in `!index`) */
+			std::string o = Operand(n.k[0], NodeLevel(n), false);
+			return t + std::string(t == "!" && o.compare(0, 2, "in") == 0 ? " " : "") + o;
+		}
 		if (t == "neg") return "-" + std::string(n.k[0].tag == "neg" && !full ? " " : "") + Operand(n.k[0], NodeLevel(n), false);
 		if (t == "pos") return "+" + std::string(n.k[0].tag == "pos" && !full ? " " : "") + Operand(n.k[0], NodeLevel(n), false);
 		if (t == "idx") return Operand(n.k[0], NodeLevel(n), false) + "[" + Expr(n.k[1]) + "]";
@@ -406,16 +428,584 @@ static std::string RunText(const std::string& text, bool hostile)
 		return hostile ? "err:std" : "syntax@0:0:" + Hex(ex.what());
 	}
 	if (!expr) return hostile ? "ok" : "v:null";
+	/* configcompiler.cpp:244-250: a syntax error is returned as a ThrowExpression carrying the message and location */
+	bool isSyntax = dynamic_cast<ThrowExpression *>(expr.get()) != nullptr;
 	std::string r;
 	try {
 		ScriptFrame frame(true);
 		Value v = expr->Evaluate(frame);
 		r = hostile ? "ok" : "v:" + Canon(v);
 	} catch (const ScriptError& ex) {
-		r = hostile ? "err:script" : ErrKind(ex.what());
+		if (isSyntax) {
+			DebugInfo di = ex.GetDebugInfo();
+			char b[64]; snprintf(b, sizeof b, "syntax@%d:%d", di.FirstLine, di.FirstColumn);
+			r = hostile ? std::string("err:") + b : std::string(b) + ":" + Hex(ex.what());
+		} else
+			r = hostile ? "err:script" : ErrKind(ex.what());
 	} catch (const std::exception& ex) {
 		r = hostile ? "err:std" : ErrKind(ex.what());
 	}
 	CleanGlobals();
 	return r;
+}
+
+/* ------------------------------------------------------------------------------------------------ generator */
+enum T { TNum, TBool, TStr, TArrN, TArrS, TDict, TAny, TCOUNT };
+
+struct FnInfo { std::string name; std::vector<T> params; T ret; };
+
+struct Gen {
+	vh::Rng rng;
+	int chaos;                              /* per-mille probability of ignoring the requested type */
+	std::vector<std::pair<std::string, T>> vars;
+	std::vector<FnInfo> fns;
+	int nvar = 0, loopDepth = 0, fnDepth = 0, budget = 60;
+
+	Gen(uint64_t seed, int chaos) : rng(seed), chaos(chaos) { }
+
+	bool pm(int permille) { return (int)rng.below(1000) < permille; }
+	template<typename V> const V& pick(const std::vector<V>& v) { return v[rng.below(v.size())]; }
+
+	Node NumLit()
+	{
+		static const std::vector<std::string> pool = { "0", "1", "2", "3", "4", "5", "7", "8", "10", "12", "16", "31", "32", "100", "255",
+			"0.5", "1.5", "2.25", "0.1", "0.25", "3.75", "1000000", "65536", "2147483647", "2147483648", "4294967296", "1m", "2h", "30s", "1d", "500ms", "1.5m" };
+		if (pm(700)) return Num(std::to_string(rng.below(10)));
+		return Num(pick(pool));
+	}
+
+	Node StrLit()
+	{
+		static const std::vector<std::string> pool = { "", "a", "b", "ab", "abc", "Hello", "x y", " pad ", "a,b,c", "foo.bar", "10", "3", "ABC", "zz", "k1", "k2" };
+		return N0("s", pick(pool));
+	}
+
+	std::string Key() { static const std::vector<std::string> p = { "a", "b", "c", "k1", "k2", "len" }; return p[rng.below(pm(30) ? 6 : 5)]; }
+
+	bool VarOf(T t, Node& out)
+	{
+		std::vector<std::string> c;
+		for (auto& v : vars) if (v.second == t || t == TAny) c.push_back(v.first);
+		if (c.empty()) return false;
+		out = N0("v", pick(c));
+		return true;
+	}
+
+	Node Leaf(T t)
+	{
+		Node v;
+		if (pm(450) && VarOf(t, v)) return v;
+		switch (t) {
+			case TNum: return NumLit();
+			case TBool: return N0(rng.coin() ? "b1" : "b0");
+			case TStr: return StrLit();
+			case TArrN: { std::vector<Node> ks; int n = rng.below(4); for (int i = 0; i < n; i++) ks.push_back(NumLit()); return NL("arr", ks); }
+			case TArrS: { std::vector<Node> ks; int n = rng.below(4); for (int i = 0; i < n; i++) ks.push_back(StrLit()); return NL("arr", ks); }
+			case TDict: { std::vector<Node> ks; int n = rng.below(3); for (int i = 0; i < n; i++) ks.push_back(N2("set", N0("v", Key()), Leaf(pm(700) ? TNum : TStr), "=")); return NL("dict", ks); }
+			default: break;
+		}
+		switch (rng.below(5)) { case 0: return N0("null"); case 1: return NumLit(); case 2: return StrLit(); case 3: return N0(rng.coin() ? "b1" : "b0"); default: return Leaf(TArrN); }
+	}
+
+	Node Method(Node obj, const std::string& name, std::vector<Node> args = {})
+	{
+		std::vector<Node> ks; ks.push_back(N1("dot", std::move(obj), name));
+		for (auto& a : args) ks.push_back(std::move(a));
+		return NL("call", ks);
+	}
+
+	Node Sys(const std::string& name, std::vector<Node> args)
+	{
+		std::vector<Node> ks; ks.push_back(N0("v", name));
+		for (auto& a : args) ks.push_back(std::move(a));
+		return NL("call", ks);
+	}
+
+	Node Lambda1(T argT, T retT)
+	{
+		/* pure callback over its parameter (plus literals): no access to the enclosing scope */
+		auto saveV = vars; auto saveF = fns;
+		vars.clear(); fns.clear();
+		vars.push_back({ "x", argT });
+		Node body = Expr(retT, 2);
+		vars = saveV; fns = saveF;
+		Node f = N0("fn"); f.names = { "x" }; f.k.push_back(body);
+		if (NodeLevel(body) < 0) f.k[0] = N1("par", body);
+		return f;
+	}
+
+	Node Expr(T t, int d)
+	{
+		if (budget > 0) budget--;
+		if (pm(chaos)) t = (T)rng.below(TCOUNT);
+		if (d <= 0 || budget <= 0 || pm(180)) return Leaf(t);
+		int r;
+		/* function call of a matching user function */
+		if (pm(120)) {
+			std::vector<const FnInfo*> c;
+			for (auto& f : fns) if (f.ret == t || t == TAny) c.push_back(&f);
+			if (!c.empty()) {
+				FnInfo f = *c[rng.below(c.size())];
+				std::vector<Node> ks; ks.push_back(N0("v", f.name));
+				for (T pt : f.params) ks.push_back(Expr(pt, d - 1));
+				return NL("call", ks);
+			}
+		}
+		switch (t) {
+		case TNum:
+			r = rng.below(100);
+			if (r < 40) { static const std::vector<std::string> ops = { "+", "-", "*", "/", "%" }; return N2("op", Expr(TNum, d - 1), Expr(TNum, d - 1), pick(ops)); }
+			if (r < 52) { static const std::vector<std::string> ops = { "&", "|", "^", "<<", ">>" }; return N2("op", Expr(TNum, d - 1), Expr(TNum, d - 1), pick(ops)); }
+			if (r < 58) return N1("neg", Expr(TNum, d - 1));
+			if (r < 61) return N1("pos", Expr(TNum, d - 1));
+			if (r < 64) return N1("~", Expr(TNum, d - 1));
+			if (r < 70) return Method(Expr(pm(500) ? TArrN : TStr, d - 1), "len");
+			if (r < 74) return Sys("len", { Expr(pm(500) ? TArrN : TDict, d - 1) });
+			if (r < 80) return N2("idx", Expr(TArrN, d - 1), Num(std::to_string(rng.below(3))));
+			if (r < 86) { Node n = N0("tern"); n.k = { Expr(TBool, d - 1), Expr(TNum, d - 1), Expr(TNum, d - 1) }; return n; }
+			if (r < 90) return N2(rng.coin() ? "&&" : "||", Expr(TNum, d - 1), Expr(TNum, d - 1));
+			if (r < 93) return Method(Expr(TStr, d - 1), "find", { StrLit() });
+			if (r < 96) return Method(Expr(TArrN, d - 1), "reduce", { [&]() { Node f = N0("fn"); f.names = { "x", "y" }; f.k.push_back(N2("op", N0("v", "x"), N0("v", "y"), "+")); return f; }() });
+			return N1("par", Expr(TNum, d - 1));
+		case TBool:
+			r = rng.below(100);
+			if (r < 30) { static const std::vector<std::string> ops = { "<", ">", "<=", ">=", "==", "!=" }; return N2("op", Expr(TNum, d - 1), Expr(TNum, d - 1), pick(ops)); }
+			if (r < 40) { static const std::vector<std::string> ops = { "<", ">", "<=", ">=", "==", "!=" }; return N2("op", Expr(TStr, d - 1), Expr(TStr, d - 1), pick(ops)); }
+			if (r < 48) return N2("op", Expr(TAny, d - 1), Expr(TAny, d - 1), rng.coin() ? "==" : "!=");
+			if (r < 60) return N2(rng.coin() ? "&&" : "||", Expr(TBool, d - 1), Expr(TBool, d - 1));
+			if (r < 68) return N1("!", Expr(pm(700) ? TBool : TAny, d - 1));
+			if (r < 76) return N2(rng.coin() ? "in" : "!in", Expr(TNum, d - 1), Expr(TArrN, d - 1));
+			if (r < 80) return N2(rng.coin() ? "in" : "!in", Expr(TStr, d - 1), Expr(TArrS, d - 1));
+			if (r < 85) return Method(Expr(TArrN, d - 1), "contains", { Expr(TNum, d - 1) });
+			if (r < 89) return Method(Expr(TStr, d - 1), "contains", { StrLit() });
+			if (r < 92) return Method(Expr(TDict, d - 1), "contains", { N0("s", Key()) });
+			if (r < 95) return Method(Expr(TArrN, d - 1), rng.coin() ? "any" : "all", { Lambda1(TNum, TBool) });
+			if (r < 98) return Sys("bool", { Expr(TAny, d - 1) });
+			return N2("op", Expr(TArrN, d - 1), Expr(TArrN, d - 1), rng.coin() ? "<" : "==");
+		case TStr:
+			r = rng.below(100);
+			if (r < 30) return N2("op", Expr(TStr, d - 1), Expr(TStr, d - 1), "+");
+			if (r < 40) return N2("op", Expr(TStr, d - 1), Expr(TNum, d - 1), "+");
+			if (r < 50) { static const std::vector<std::string> ms = { "upper", "lower", "trim", "reverse", "to_string" }; return Method(Expr(TStr, d - 1), pick(ms)); }
+			if (r < 56) return Method(Expr(TStr, d - 1), "substr", pm(500) ? std::vector<Node>{ Num(std::to_string(rng.below(3))) } : std::vector<Node>{ Num(std::to_string(rng.below(3))), Num(std::to_string(rng.below(4))) });
+			if (r < 62) return Method(Expr(TStr, d - 1), "replace", { N0("s", rng.coin() ? "a" : "b"), StrLit() });
+			if (r < 70) return Method(Expr(pm(500) ? TArrS : TArrN, d - 1), "join", { N0("s", rng.coin() ? "," : "") });
+			if (r < 78) return Sys("string", { Expr(pm(600) ? TNum : TAny, d - 1) });
+			if (r < 84) return N1("dot", Sys("typeof", { Expr(TAny, d - 1) }), "name");
+			if (r < 88) return Method(Expr(TNum, d - 1), "to_string");
+			if (r < 92) return N2("idx", Expr(TArrS, d - 1), Num(std::to_string(rng.below(2))));
+			if (r < 96) { Node n = N0("tern"); n.k = { Expr(TBool, d - 1), Expr(TStr, d - 1), Expr(TStr, d - 1) }; return n; }
+			return N2("||", Expr(TStr, d - 1), Expr(TStr, d - 1));
+		case TArrN:
+			r = rng.below(100);
+			if (r < 20) { std::vector<Node> ks; int n = rng.below(4); for (int i = 0; i < n; i++) ks.push_back(Expr(TNum, d - 1)); return NL("arr", ks); }
+			if (r < 32) return N2("op", Expr(TArrN, d - 1), Expr(TArrN, d - 1), rng.coin() ? "+" : "-");
+			if (r < 40) return Sys("range", pm(600) ? std::vector<Node>{ Num(std::to_string(rng.below(6))) } : std::vector<Node>{ Num(std::to_string(rng.below(4))), Num(std::to_string(rng.below(8))), Num(pm(800) ? "2" : "0.5") });
+			if (r < 50) return Method(Expr(TArrN, d - 1), "map", { Lambda1(TNum, TNum) });
+			if (r < 58) return Method(Expr(TArrN, d - 1), "filter", { Lambda1(TNum, TBool) });
+			if (r < 70) { static const std::vector<std::string> ms = { "sort", "reverse", "unique", "shallow_clone" }; return Method(Expr(TArrN, d - 1), pick(ms)); }
+			if (r < 78) return Sys(rng.coin() ? "union" : "intersection", { Expr(TArrN, d - 1), Expr(TArrN, d - 1) });
+			if (r < 84) return Method(Expr(TDict, d - 1), "values");
+			if (r < 90) return N2("op", Expr(TArrN, d - 1), N0("null"), "+");
+			return Leaf(TArrN);
+		case TArrS:
+			r = rng.below(100);
+			if (r < 25) { std::vector<Node> ks; int n = rng.below(4); for (int i = 0; i < n; i++) ks.push_back(Expr(TStr, d - 1)); return NL("arr", ks); }
+			if (r < 45) return Method(Expr(TStr, d - 1), "split", { N0("s", pm(600) ? "," : ". ") });
+			if (r < 60) return pm(500) ? Sys("keys", { Expr(TDict, d - 1) }) : Method(Expr(TDict, d - 1), "keys");
+			if (r < 72) return Method(Expr(TArrS, d - 1), pm(500) ? "sort" : "reverse");
+			if (r < 82) return N2("op", Expr(TArrS, d - 1), Expr(TArrS, d - 1), rng.coin() ? "+" : "-");
+			if (r < 90) return Method(Expr(TArrS, d - 1), "map", { Lambda1(TStr, TStr) });
+			return Leaf(TArrS);
+		case TDict:
+			r = rng.below(100);
+			if (r < 45) {
+				std::vector<Node> ks; int n = 1 + rng.below(3);
+				for (int i = 0; i < n; i++) {
+					if (i > 0 && pm(250)) ks.push_back(N2("set", N0("v", Key()), N2("op", N1("dot", N0("this"), ks[0].k[0].s), NumLit(), "+"), "="));
+					else ks.push_back(N2("set", N0("v", Key()), Expr(pm(600) ? TNum : TAny, d - 1), pm(900) ? "=" : "+="));
+				}
+				return NL("dict", ks);
+			}
+			if (r < 65) return N2("op", Expr(TDict, d - 1), Expr(TDict, d - 1), "+");
+			if (r < 75) return Method(Expr(TDict, d - 1), "shallow_clone");
+			return Leaf(TDict);
+		default:
+			r = rng.below(100);
+			if (r < 70) return Expr((T)rng.below(TAny), d);
+			if (r < 80) return N2(rng.coin() ? "&&" : "||", Expr(TAny, d - 1), Expr(TAny, d - 1));
+			if (r < 88) return N1("dot", Expr(TDict, d - 1), Key());
+			if (r < 94) return Method(Expr(TDict, d - 1), "get", { N0("s", Key()) });
+			return N0("null");
+		}
+	}
+
+	std::string NewVar() { return "v" + std::to_string(nvar++); }
+
+	Node BlockOf(int n, int d)
+	{
+		std::vector<Node> ks;
+		size_t nv = vars.size(), nf = fns.size();
+		for (int i = 0; i < n; i++) Stmt(ks, d);
+		/* block-local declarations stay visible in the language (function-level scope), but may not have executed */
+		vars.resize(nv); fns.resize(nf);
+		return NL("blk", ks);
+	}
+
+	void Stmt(std::vector<Node>& out, int d)
+	{
+		if (budget > 0) budget -= 2;
+		int r = rng.below(100);
+		if (d <= 0 || budget <= 0) r = rng.below(40);
+		if (r < 22 || vars.empty()) {
+			T t = (T)rng.below(TAny);
+			Node e = Expr(t, 3);
+			std::string v = NewVar();
+			out.push_back(N1("var", e, v));
+			vars.push_back({ v, t });
+		} else if (r < 40) {
+			auto v = vars[rng.below(vars.size())];
+			switch (v.second) {
+				case TNum: { static const std::vector<std::string> ops = { "=", "+=", "-=", "*=", "/=", "%=", "^=", "&=", "|=" }; out.push_back(N2("set", N0("v", v.first), Expr(TNum, 2), ops[rng.below(pm(700) ? 3 : 9)])); break; }
+				case TStr: out.push_back(N2("set", N0("v", v.first), Expr(TStr, 2), rng.coin() ? "=" : "+=")); break;
+				case TBool: out.push_back(N2("set", N0("v", v.first), Expr(TBool, 2), "=")); break;
+				case TArrN:
+					r = rng.below(4);
+					if (r == 0) out.push_back(Method(N0("v", v.first), "add", { Expr(TNum, 2) }));
+					else if (r == 1) out.push_back(N2("set", N2("idx", N0("v", v.first), Num(std::to_string(rng.below(4)))), Expr(TNum, 2), rng.coin() ? "=" : "+="));
+					else if (r == 2) out.push_back(N2("set", N0("v", v.first), Expr(TArrN, 2), rng.coin() ? "+=" : "-="));
+					else out.push_back(Method(N0("v", v.first), pm(700) ? "remove" : "clear", pm(700) ? std::vector<Node>{ Num("0") } : std::vector<Node>{}));
+					if (out.back().tag == "call" && out.back().k[0].s == "clear") out.back().k.resize(1);
+					if (out.back().tag == "call" && out.back().k[0].s == "remove" && out.back().k.size() == 1) out.back().k.push_back(Num("0"));
+					break;
+				case TArrS: out.push_back(Method(N0("v", v.first), "add", { Expr(TStr, 2) })); break;
+				case TDict:
+					r = rng.below(4);
+					if (r == 0) out.push_back(N2("set", N1("dot", N0("v", v.first), Key()), Expr(TNum, 2), rng.coin() ? "=" : "+="));
+					else if (r == 1) out.push_back(N2("set", N2("idx", N0("v", v.first), N0("s", Key())), Expr(TAny, 2), "="));
+					else if (r == 2) out.push_back(N2("set", N1("dot", N1("dot", N0("v", v.first), "sub"), Key()), Expr(TNum, 2), "="));
+					else out.push_back(Method(N0("v", v.first), pm(600) ? "set" : "remove", { N0("s", Key()), Expr(TNum, 1) }));
+					if (out.back().tag == "call" && out.back().k[0].s == "remove") out.back().k.resize(2);
+					break;
+				default: out.push_back(N2("set", N0("v", v.first), Expr(TAny, 2), "="));
+			}
+		} else if (r < 50) {
+			Node n = N0("if");
+			n.k.push_back(Expr(TBool, 2));
+			n.k.push_back(BlockOf(1 + rng.below(2), d - 1));
+			if (rng.coin()) n.k.push_back(BlockOf(1 + rng.below(2), d - 1));
+			out.push_back(n);
+		} else if (r < 58) {
+			/* bounded while: the counter is incremented first so that `continue` cannot loop forever */
+			std::string i = NewVar();
+			out.push_back(N1("var", Num("0"), i));
+			loopDepth++;
+			Node body = BlockOf(1 + rng.below(2), d - 1);
+			loopDepth--;
+			body.k.insert(body.k.begin(), N2("set", N0("v", i), Num("1"), "+="));
+			if (pm(300)) { Node c = N0("if"); c.k.push_back(N2("op", N0("v", i), Num(std::to_string(1 + rng.below(3))), "==")); c.k.push_back(NL("blk", { N0(rng.coin() ? "brk" : "cont") })); body.k.insert(body.k.begin() + 1, c); }
+			out.push_back(N2("while", N2("op", N0("v", i), Num(std::to_string(1 + rng.below(4))), "<"), body));
+			vars.push_back({ i, TNum });
+		} else if (r < 68) {
+			bool overDict = pm(350);
+			Node n = N0("for");
+			std::string k = NewVar(), v = overDict ? NewVar() : "";
+			n.names = { k, v };
+			n.k.push_back(Expr(overDict ? TDict : (pm(700) ? TArrN : TArrS), 2));
+			size_t nv = vars.size();
+			vars.push_back({ k, overDict ? TStr : TAny });
+			if (overDict) vars.push_back({ v, TAny });
+			loopDepth++;
+			Node body = BlockOf(1 + rng.below(2), d - 1);
+			loopDepth--;
+			if (pm(200)) { Node c = N0("if"); c.k.push_back(Expr(TBool, 1)); c.k.push_back(NL("blk", { N0(rng.coin() ? "brk" : "cont") })); body.k.insert(body.k.begin(), c); }
+			vars.resize(nv);
+			n.k.push_back(body);
+			out.push_back(n);
+		} else if (r < 80 && fnDepth < 2) {
+			/* function value with parameters, optional use(), statements and a return */
+			FnInfo fi; fi.name = NewVar();
+			int np = rng.below(3);
+			Node f = N0("fn");
+			auto saveV = vars; auto saveF = fns; int saveLoop = loopDepth;
+			std::vector<std::pair<std::string, T>> inner;
+			for (auto& v : saveV) if (pm(300) && f.uses.size() < 2) { f.uses.push_back(v.first); inner.push_back(v); }
+			for (int i = 0; i < np; i++) { T pt = (T)rng.below(TAny); fi.params.push_back(pt); f.names.push_back("p" + std::to_string(i)); inner.push_back({ "p" + std::to_string(i), pt }); }
+			vars = inner; fns.clear(); loopDepth = 0; fnDepth++;
+			fi.ret = (T)rng.below(TAny);
+			if (pm(300)) {
+				Node body = Expr(fi.ret, 3);
+				f.k.push_back(NodeLevel(body) < 0 ? N1("par", body) : body);
+			} else {
+				std::vector<Node> ks;
+				int ns = rng.below(3);
+				for (int i = 0; i < ns; i++) Stmt(ks, d - 1);
+				if (pm(300)) { Node c = N0("if"); c.k.push_back(Expr(TBool, 2)); c.k.push_back(NL("blk", { N1("ret", Expr(fi.ret, 2)) })); ks.push_back(c); }
+				ks.push_back(pm(700) ? N1("ret", Expr(fi.ret, 3)) : Expr(fi.ret, 3));
+				f.k.push_back(NL("blk", ks));
+			}
+			fnDepth--; vars = saveV; fns = saveF; loopDepth = saveLoop;
+			out.push_back(N1("var", f, fi.name));
+			fns.push_back(fi);
+		} else if (r < 84 && fnDepth == 0) {
+			/* named recursive function: this.gfN = function … ; depth occasionally beyond the frame limit */
+			static int gf = 0;
+			std::string name = "gf" + std::to_string(rng.below(4)); (void)gf;
+			Node f = N0("fndecl", name); f.names = { "n" };
+			Node c = N0("if"); c.k.push_back(N2("op", N0("v", "n"), Num("0"), "<=")); c.k.push_back(NL("blk", { N1("ret", NumLit()) }));
+			Node rec = NL("call", { N0("v", name), N2("op", N0("v", "n"), Num("1"), "-") });
+			f.k.push_back(NL("blk", { c, N1("ret", N2("op", rec, Num("1"), "+")) }));
+			out.push_back(f);
+			static const std::vector<std::string> depths = { "0", "1", "3", "10", "40", "60", "70", "74", "75", "76", "80", "400" };
+			std::string v = NewVar();
+			Node call = NL("call", { N0("v", name), Num(pick(depths)) });
+			if (pm(500)) out.push_back(N1("var", call, v));
+			else out.push_back(N2("try", NL("blk", { N1("var", call, v) }), NL("blk", { N1("var", Num("7"), v) })));
+			vars.push_back({ v, TNum });
+		} else if (r < 92) {
+			Node tb = BlockOf(1 + rng.below(2), d - 1);
+			if (pm(600)) tb.k.push_back(N1("throw", pm(700) ? N0("s", "E1") : Expr(TAny, 1)));
+			out.push_back(N2("try", tb, BlockOf(1 + rng.below(2), d - 1)));
+		} else if (r < 95) {
+			out.push_back(N2("set", N1("dot", N0("globals"), "g" + std::to_string(rng.below(4))), Expr(TNum, 2), "="));
+		} else if (r < 97 && loopDepth > 0) {
+			out.push_back(N0(rng.coin() ? "brk" : "cont"));
+		} else if (r < 98) {
+			out.push_back(N1("throw", pm(600) ? N0("s", "boom") : Expr(TAny, 1)));
+		} else {
+			Node v; if (VarOf(TNum, v)) out.push_back(N2("set", v, N0("v", "g" + std::to_string(rng.below(4))), "+=")); else out.push_back(N1("var", NumLit(), NewVar()));
+		}
+	}
+
+	Node Program()
+	{
+		std::vector<Node> ks;
+		int n = 1 + rng.below(6);
+		budget = 40 + rng.below(60);
+		for (int i = 0; i < n; i++) Stmt(ks, 2);
+		std::vector<Node> fin;
+		for (auto& v : vars) fin.push_back(N0("v", v.first));
+		if (pm(300)) fin.push_back(Expr(TAny, 3));
+		ks.push_back(NL("arr", fin));
+		return NL("blk", ks);
+	}
+
+	/* one pure expression: the precedence workhorse */
+	Node ExprProgram()
+	{
+		budget = 30 + rng.below(40);
+		return NL("blk", { Expr((T)rng.below(TCOUNT), 4 + rng.below(3)) });
+	}
+};
+
+/* deep nesting (thorough tier, a few in quick) */
+static Node Deep(const std::string& kind, int n)
+{
+	Node e = Num("1");
+	if (kind == "recursion") {
+		Node f = N0("fndecl", "gf0"); f.names = { "n" };
+		Node c = N0("if"); c.k.push_back(N2("op", N0("v", "n"), Num("0"), "<=")); c.k.push_back(NL("blk", { N1("ret", Num("0")) }));
+		f.k.push_back(NL("blk", { c, N1("ret", N2("op", NL("call", { N0("v", "gf0"), N2("op", N0("v", "n"), Num("1"), "-") }), Num("1"), "+")) }));
+		return NL("blk", { f, NL("call", { N0("v", "gf0"), Num(std::to_string(n)) }) });
+	}
+	for (int i = 0; i < n; i++) {
+		if (kind == "paren") e = N1("par", e);
+		else if (kind == "bracket") e = NL("arr", { e });
+		else if (kind == "neg") e = N1("neg", e);
+		else if (kind == "not") e = N1("!", e);
+		else if (kind == "right") e = N2("op", Num("1"), e, "+");
+		else if (kind == "left") e = N2("op", e, Num("1"), "+");
+		else if (kind == "index") e = N1("dot", e, "a");
+		else if (kind == "dict") e = NL("dict", { N2("set", N0("v", "a"), e, "=") });
+		else if (kind == "lambda") { Node f = N0("fn"); f.k.push_back(e); e = NL("call", { N1("par", f) }); }
+	}
+	if (kind == "index") { /* base must be a dictionary so that every step yields Empty, not an error */ }
+	return NL("blk", { e });
+}
+
+/* ------------------------------------------------------------------------------------------------ hostile texts */
+static std::string Mutate(vh::Rng& rng, std::string s)
+{
+	static const std::vector<std::string> toks = { "(", ")", "[", "]", "{", "}", "{{", "}}", ";", ",", "=>", "=", "==", "!", "!in", "in", "&&", "||", "+", "-", "*", "/", "%",
+		"<", ">", "<<", ">>", "\"", "'", "/*", "*/", "//", "#", "\\", "function", "use", "var", "this", "locals", "globals", "return", "break", "continue", "if", "else",
+		"while", "for", "try", "except", "throw", "null", "true", "1e", "0x", "1.", ".5", "1..2", "@", "$", "&", "*x", "&x", "?", ":", "{{{", "<<<EOT\n", "EOT", "\n", "\0", "\xff", "\xc3\x28",
+		"99999999999999999999999999999", "object", "apply", "template", "namespace", "const", "import", "assign where", "ignore where", "library", "using", "current_line", "current_filename", "__if" };
+	int n = 1 + rng.below(4);
+	for (int i = 0; i < n; i++) {
+		size_t pos = s.empty() ? 0 : rng.below(s.size() + 1);
+		switch (rng.below(5)) {
+			case 0: if (!s.empty()) s.erase(std::min(pos, s.size() - 1), 1 + rng.below(3)); break;
+			case 1: s.insert(pos, toks[rng.below(toks.size())]); break;
+			case 2: if (!s.empty()) s[std::min(pos, s.size() - 1)] = (char)rng.below(256); break;
+			case 3: s = s.substr(0, pos); break;
+			default: if (!s.empty()) { size_t a = rng.below(s.size()), l = 1 + rng.below(8); s.insert(pos, s.substr(a, l)); }
+		}
+	}
+	return s;
+}
+
+static std::string Bytes(vh::Rng& rng)
+{
+	std::string s;
+	int n = rng.below(200);
+	int mode = rng.below(3);
+	for (int i = 0; i < n; i++) {
+		if (mode == 0) s += (char)rng.below(256);
+		else if (mode == 1) s += (char)(32 + rng.below(95));
+		else s += "()[]{}\"'\;,=<>!&|+-*/%.0123456789abcin \n"[rng.below(42)];
+	}
+	return s;
+}
+
+/* ------------------------------------------------------------------------------------------------ cases */
+struct Case { char kind; std::string id; Node ast; std::string text; };
+
+static std::string OpPart(const Case& c)
+{
+	if (c.kind == 'X') return "X " + c.id + " " + Hex(c.text);
+	std::string o = "P " + c.id + " ";
+	Emit(c.ast, o);
+	while (!o.empty() && o.back() == ' ') o.pop_back();
+	return o;
+}
+
+static std::string Observe(const Case& c, int phase)
+{
+	if (c.kind == 'X') return RunText(c.text, true);
+	if (phase == 0) return RunText(PrintProgram(c.ast, false), false);
+	if (phase == 1) return RunText(PrintProgram(c.ast, true), false);
+	return RunText(PrintProgram(c.ast, false), false);
+}
+
+struct ShMem { volatile long index; volatile int phase; char partial[3][1 << 16]; };
+
+/* runs cases[from..) in a forked child; returns the index of the case that killed the child, or -1 */
+template<typename GetCase>
+static void RunAll(long total, GetCase getCase)
+{
+	ShMem *sh = (ShMem *)mmap(nullptr, sizeof(ShMem), PROT_READ | PROT_WRITE, MAP_SHARED | MAP_ANONYMOUS, -1, 0);
+	long next = 0;
+	while (next < total) {
+		fflush(g_Out);
+		pid_t pid = fork();
+		if (pid == 0) {
+			struct rlimit rl = { 6ULL << 30, 6ULL << 30 };
+			setrlimit(RLIMIT_AS, &rl);
+			for (long i = next; i < total; i++) {
+				Case c = getCase(i);
+				sh->index = i;
+				sh->phase = 0;
+				sh->partial[0][0] = sh->partial[1][0] = sh->partial[2][0] = 0;
+				std::string op = OpPart(c);
+				fputs(op.c_str(), g_Out); fputs(" | ", g_Out); fflush(g_Out);
+				alarm(c.kind == 'X' ? 5 : 20);
+				if (c.kind == 'X') {
+					std::string r = Observe(c, 0);
+					alarm(0);
+					fputs(r.c_str(), g_Out);
+				} else {
+					std::string r[3];
+					for (int ph = 0; ph < 3; ph++) {
+						sh->phase = ph;
+						r[ph] = Observe(c, ph);
+						strncpy(sh->partial[ph], r[ph].c_str(), sizeof(sh->partial[ph]) - 1);
+					}
+					alarm(0);
+					fprintf(g_Out, "min=%s full=%s again=%s", r[0].c_str(), r[1].c_str(), r[2].c_str());
+				}
+				fputs("\n", g_Out); fflush(g_Out);
+			}
+			fflush(g_Out);
+			_exit(0);
+		}
+		int status = 0;
+		waitpid(pid, &status, 0);
+		if (WIFEXITED(status) && WEXITSTATUS(status) == 0) break;
+		/* the child died while evaluating case sh->index: complete its line */
+		long i = sh->index;
+		int sig = WIFSIGNALED(status) ? WTERMSIG(status) : 0;
+		std::string what = sig == SIGALRM ? "timeout" : "crash:sig=" + std::to_string(sig);
+		Case c = getCase(i);
+		if (c.kind == 'X') fprintf(g_Out, "%s\n", what.c_str());
+		else {
+			std::string r[3];
+			for (int ph = 0; ph < 3; ph++) r[ph] = ph < sh->phase ? std::string(sh->partial[ph]) : what;
+			fprintf(g_Out, "min=%s full=%s again=%s\n", r[0].c_str(), r[1].c_str(), r[2].c_str());
+		}
+		fflush(g_Out);
+		next = i + 1;
+	}
+}
+
+int main(int argc, char **argv)
+{
+	if (argc < 2) { fprintf(stderr, "usage: c15 gen --seed S --tier T | ops FILE\n"); return 2; }
+	const char *prec = getenv("VERIF_C15_PREC");
+	if (!prec || !LoadPrec(prec)) { fprintf(stderr, "c15: precedence table (VERIF_C15_PREC) missing or unreadable\n"); return 3; }
+	vh::InitIcinga();
+	{
+		int saved = dup(1);
+		int nul = open("/dev/null", O_WRONLY);
+		dup2(nul, 1);
+		g_Out = fdopen(saved, "w");
+	}
+	std::string mode = argv[1];
+	if (mode == "ops" || mode == "text") {
+		std::ifstream in(argv[2]);
+		std::vector<std::string> lines;
+		std::string line;
+		while (std::getline(in, line)) {
+			size_t p = line.find(" | ");
+			if (p != std::string::npos) line = line.substr(0, p);
+			if (line.size() > 2 && (line[0] == 'P' || line[0] == 'X') && line[1] == ' ') lines.push_back(line);
+		}
+		auto getLine = [&](long i) {
+			Case c; c.kind = lines[i][0];
+			std::istringstream is(lines[i].substr(2));
+			is >> c.id;
+			if (c.kind == 'X') { std::string h; is >> h; c.text = UnHex(h); return c; }
+			Tok tk; std::string w;
+			while (is >> w) tk.t.push_back(w);
+			c.ast = Parse(tk);
+			if (tk.bad || c.ast.tag != "blk") { c.kind = 'X'; c.text = "/* unparsable ops line */"; }
+			return c;
+		};
+		if (mode == "text") {
+			for (long i = 0; i < (long)lines.size(); i++) {
+				Case c = getLine(i);
+				if (c.kind == 'X') fprintf(g_Out, "--- X %s\n%s\n", c.id.c_str(), c.text.c_str());
+				else fprintf(g_Out, "--- P %s (min)\n%s\n--- (full)\n%s\n", c.id.c_str(), PrintProgram(c.ast, false).c_str(), PrintProgram(c.ast, true).c_str());
+			}
+			_exit(0);
+		}
+		RunAll((long)lines.size(), getLine);
+		_exit(0);
+	}
+	uint64_t seed = strtoull(vh::argOr(argc, argv, "--seed", "1"), nullptr, 10);
+	bool thorough = std::string(vh::argOr(argc, argv, "--tier", "quick")) == "thorough";
+	long nProg = thorough ? 120000 : 5000, nExpr = thorough ? 150000 : 7000, nChaos = thorough ? 50000 : 2000, nHostile = thorough ? 150000 : 6000;
+	std::vector<std::pair<std::string, int>> deep;
+	for (const char *k : { "paren", "bracket", "neg", "not", "right", "left", "index", "dict", "lambda", "recursion" }) {
+		for (int n : { 5, 70, 74, 75, 76, 99, 100, 148, 149, 150, 151, 295, 296, 297, 298, 299, 300, 301, 302, 310 }) deep.push_back({ k, n });
+		if (thorough) for (int n : { 1000, 2500, 5000 }) deep.push_back({ k, n });
+		else deep.push_back({ k, 700 });
+	}
+	long nDeep = (long)deep.size();
+	long total = nProg + nExpr + nChaos + nHostile + nDeep;
+	RunAll(total, [&](long i) {
+		Case c;
+		c.id = std::to_string(i);
+		uint64_t s = seed * 0x9e3779b97f4a7c15ULL + (uint64_t)i * 0xbf58476d1ce4e5b9ULL + 12345;
+		if (i < nProg) { Gen g(s, 4); c.kind = 'P'; c.ast = g.Program(); }
+		else if (i < nProg + nExpr) { Gen g(s, 4); c.kind = 'P'; c.ast = g.ExprProgram(); }
+		else if (i < nProg + nExpr + nChaos) { Gen g(s, 120); c.kind = 'P'; c.ast = (i & 1) ? g.Program() : g.ExprProgram(); }
+		else if (i < nProg + nExpr + nChaos + nHostile) {
+			vh::Rng r(s);
+			c.kind = 'X';
+			if (r.below(4) == 0) c.text = Bytes(r);
+			else { Gen g(s ^ 77, r.below(2) ? 4 : 200); Node p = r.coin() ? g.Program() : g.ExprProgram(); c.text = Mutate(r, PrintProgram(p, r.coin())); }
+		} else { auto& d = deep[i - (nProg + nExpr + nChaos + nHostile)]; c.kind = 'P'; c.id = d.first + std::to_string(d.second); c.ast = Deep(d.first, d.second); }
+		return c;
+	});
+	_exit(0);
 }
